@@ -15,13 +15,13 @@ var verifForeignXID = dhcpv4.TransactionID{0xee, 0xee, 0xee, 0xee}
 
 // verifServerMsg is one scripted server reply with symbolic content.
 type verifServerMsg struct {
-	ownXID   bool   // carries the transaction id of the client message it answers
-	hasType  bool   // message type option present
-	mt       uint8  // its value
-	sidKind  int    // 0 absent, 1 four bytes, 2 three bytes (malformed)
-	sid      []byte // server identifier bytes
-	yi       []byte // yiaddr
-	decoded  *dhcpv4.DHCPv4
+	ownXID  bool   // carries the transaction id of the client message it answers
+	hasType bool   // message type option present
+	mt      uint8  // its value
+	sidKind int    // 0 absent, 1 four bytes, 2 three bytes (malformed)
+	sid     []byte // server identifier bytes
+	yi      []byte // yiaddr
+	decoded *dhcpv4.DHCPv4
 }
 
 // verifScriptServer makes the connection answer the n-th transmission with the replies[n] stream.
@@ -104,7 +104,9 @@ func (c *verifServerConn) WriteTo(b []byte, a net.Addr) (int, error) {
 	return n, err
 }
 
-func verifIs(m *verifServerMsg, t dhcpv4.MessageType) bool { return verifAnd(m.hasType, m.mt == uint8(t)) }
+func verifIs(m *verifServerMsg, t dhcpv4.MessageType) bool {
+	return verifAnd(m.hasType, m.mt == uint8(t))
+}
 
 // VerifC13Request: the 4-way exchange with n1 replies to DISCOVER and n2 replies to REQUEST.
 // shape selects, per reply, server-id kind (0 absent, 1 valid, 2 malformed) in base 3.
